@@ -20,7 +20,7 @@ func init() {
 		ID: "C10", Level: "model_checking",
 		Rule:   "ELX: catalogue of connection-scoped offences (wrong sizes of PING/SETTINGS/RST_STREAM/WINDOW_UPDATE, oversized frame, CONTINUATION sequencing, PING/SETTINGS on a stream, invalid SETTINGS values, connection window overflow and zero increment, HPACK errors, HEADERS on an even id, DATA on an idle id) x requests dispatched before it {0,1,2} x their handlers {returned, still running} x trailing traffic {nothing, one more request, 140 PINGs, request + 140 PINGs, a half-sent frame} x peer {stays silent, closes, stopped reading before the offence} x handlers returning afterwards; plus idle-timeout shutdown at every point of a request's life. Oracle: GOAWAY (or close) at the offence with a code RFC 7540 allows; every GOAWAY's last-stream-id >= highest stream id ever dispatched; nothing dispatched after a GOAWAY on an id above its last-stream-id and no stream opened after a connection error; once the handlers have returned and the armed (virtual) timers have fired, ServeConn has returned and only handler goroutines are left. Non-trivial: every scenario; distinct by scenario.",
 		Assume: []string{"'bounded time' means: after the handlers the GOAWAY promised have returned and every armed virtual timer has fired", "canonical internal schedule between events; the timer-vs-request races are additionally explored with preemptions in C19"},
-		Run:    runC10, Replay: replayC10, QuickS: 120, ThoroughS: 600,
+		Run:    runC10, Replay: replayC10, Policies: 1, QuickS: 120, ThoroughS: 600,
 	})
 }
 
